@@ -1,5 +1,7 @@
-(* C13 -- visualize agrees with the audit, and what it emits is a well-formed tree. *)
+(* C13 -- visualize is total on dumped archives, agrees with the audit, and what it emits is a well-formed tree. *)
 From Skv Require Import PyStr Json Node GetTree Unsafe UnsafeFacts NodeInd Families TreeWf TreeIds GraphAudit Walk WalkFacts.
+From Skv Require Import CodecGuards CodecWitness CodecShareFacts CodecFacts CodecRootFacts VisTotalFacts.
+From Gen Require Import Snapshot.
 
 (* whenever visualize completes, what reaches the printer is: the root row first, then rows each at
    most one level deeper than the previous one (every show mode) *)
@@ -66,3 +68,125 @@ Theorem C13_no_false_safe :
   forall x nm, sub x n -> contributes E T x nm -> False.
 Proof. exact clean_audit_means_clean_subtree. Qed.
 Print Assumptions C13_no_false_safe.
+
+(* ================= first clause: visualize completes on what the dumper writes ================= *)
+
+(* per-run obligations: get_tree selects, at the current protocol, the node class the model assumes for every loader of
+   the fragment; SliceNode is one of _visualize.SKIPPED_TYPES (its children are raw JSON values walk_tree cannot visit) *)
+Theorem C13_loaders_registered : reg_ok Snapshot.registry Snapshot.current = true.
+Proof. vm_compute. reflexivity. Qed.
+Print Assumptions C13_loaders_registered.
+
+Theorem C13_slices_skipped : mem (s "_general.SliceNode") Snapshot.skipped = true.
+Proof. vm_compute. reflexivity. Qed.
+Print Assumptions C13_slices_skipped.
+
+(* the load environment of a dumped archive in this run: registry, protocol, node classes with their default-trusted names *)
+Definition dump_env (a : archive) : env :=
+  {| e_reg := Snapshot.registry; e_cur := Snapshot.current; e_classes := Snapshot.classes; e_unavailable := Snapshot.unavailable;
+     e_members := map fst (a_members a); e_resolve := [] |}.
+
+(* The full statement (kept visible; FALSE for show = trusted, see C13_total_on_dumps_trusted_refuted, finding D24):
+   every archive dumps writes is visualized to the end, whatever `trusted` and `show` are. *)
+Definition C13_total_on_dumps_full_statement : Prop :=
+  forall (D : denv) (base : Z) (v : pval) (a : archive) (T : trust) (sh : show_mode),
+    dn_cur D = Snapshot.current -> dumps_model D base v = Ok a ->
+    exists rows, visualize (dump_env a) Snapshot.skipped (a_schema a) T sh = Ok rows.
+
+(* Proved: for every value of the C05 fragment (c05_guard: JSON scalars; arbitrarily nested list / tuple / set; dict /
+   OrderedDict / defaultdict; slices; function and type names; attrgetter / itemgetter; numpy arrays and scalars; sparse
+   matrices; dtypes; masked arrays; RandomState / Generator; functools.partial; arbitrary sharing of sub-objects; nesting
+   depth below get_tree's fuel), every load environment E with this run's registry and protocol and the archive's member
+   list (whatever the node classes' default-trusted names are), every skipped-kind list containing SliceNode, and EVERY
+   trusted list T:
+   - the row generator handed to a custom sink runs to the end (no exception: no missing reference, no RecursionError, no
+     KeyError on a childless DictNode, no error from format() / is_self_safe() / is_safe(), model fuel not exhausted);
+   - the default sink completes for show = "all" and prints exactly those rows;
+   - the default sink completes for show = "untrusted" and prints the root and exactly the rows that are not fully safe
+     (a row that is not fully safe has only not-fully-safe ancestors: the audit of a node includes the audits of its parts);
+   - the default sink completes for show = "trusted" when every row below the root is self-safe (e.g. all names trusted).
+   Method: coq/io/VisTotalFacts.v (ranks on the tree built from a dumped state, bounded depth through references, walk
+   yields a safe-closed pre-order forest, _traverse_tree accepts it). *)
+Theorem C13_total_on_dumps_partial :
+  forall (F : cfacts) (D : denv) (base : Z) (v : pval) (E : env) (a : archive) (skipped : list pstr) (T : trust),
+    e_cur E = dn_cur D -> reg_ok (e_reg E) (e_cur E) = true -> facts_sane F = true ->
+    c05_guard F D base v = true -> dumps_model D base v = Ok a -> e_members E = map fst (a_members a) ->
+    mem (s "_general.SliceNode") skipped = true ->
+    exists r rs,
+      visualize_rows E skipped (a_schema a) T = Ok (r :: rs)
+      /\ visualize E skipped (a_schema a) T ShowAll = Ok (r :: rs)
+      /\ visualize E skipped (a_schema a) T ShowUntrusted = Ok (r :: filter (fun x => negb (r_safe x)) rs)
+      /\ r_level r = O
+      /\ (Forall (fun x => r_self_safe x = true) rs -> visualize E skipped (a_schema a) T ShowTrusted = Ok (r :: rs)).
+Proof. exact (fun F D base v E a skipped T H1 H2 H3 H4 H5 H6 H7 => visualize_total_dumped F D base v E a H1 H2 H3 H4 H5 H6 skipped H7 T). Qed.
+Print Assumptions C13_total_on_dumps_partial.
+
+(* ... in particular in this run's environment (Snapshot registry / protocol / node classes / SKIPPED_TYPES) *)
+Theorem C13_total_on_dumps_here_partial :
+  forall (F : cfacts) (D : denv) (base : Z) (v : pval) (a : archive) (T : trust),
+    dn_cur D = Snapshot.current -> facts_sane F = true -> c05_guard F D base v = true -> dumps_model D base v = Ok a ->
+    exists r rs,
+      visualize_rows (dump_env a) Snapshot.skipped (a_schema a) T = Ok (r :: rs)
+      /\ visualize (dump_env a) Snapshot.skipped (a_schema a) T ShowAll = Ok (r :: rs)
+      /\ visualize (dump_env a) Snapshot.skipped (a_schema a) T ShowUntrusted = Ok (r :: filter (fun x => negb (r_safe x)) rs)
+      /\ r_level r = O
+      /\ (Forall (fun x => r_self_safe x = true) rs -> visualize (dump_env a) Snapshot.skipped (a_schema a) T ShowTrusted = Ok (r :: rs)).
+Proof.
+  exact (fun F D base v a T H1 H2 H3 H4 =>
+           visualize_total_dumped F D base v (dump_env a) a (eq_sym H1) C13_loaders_registered H2 H3 H4 eq_refl Snapshot.skipped C13_slices_skipped T).
+Qed.
+Print Assumptions C13_total_on_dumps_here_partial.
+
+(* witnesses: functools.partial(np.add, 1); a tuple holding a shared list twice, a dict (one value is that list again, one a
+   slice), and the partial *)
+Definition wpartial (id : Z) : pval :=
+  PPartial id (s "functools") (s "partial") (PFunc (id + 1) (s "numpy") (s "add")) (ptuple (id + 2) [pint 1]) (pdict (id + 3) [])
+           (PScalar (id + 4) SNone).
+Definition wvis : pval :=
+  let sh := plist 20 [pint 1; pstr_ 22 "x"] in
+  ptuple 25 [sh; pdict 23 [(kstr "a", sh); (kint 3, PSlice 27 (BScalar (SInt 1)) (BScalar SNone) (BScalar (SInt 2)))]; wpartial 30; sh].
+Definition vis_of (v : pval) (T : trust) (sh : show_mode) : res (list row) :=
+  do a <- dumps_model (wd Snapshot.current) wbase v;
+  visualize (dump_env a) Snapshot.skipped (a_schema a) T sh.
+Definition rows_of (v : pval) (T : trust) : res (list row) :=
+  do a <- dumps_model (wd Snapshot.current) wbase v;
+  visualize_rows (dump_env a) Snapshot.skipped (a_schema a) T.
+Definition brief (r : res (list row)) : res (list (nat * bool * bool)) :=
+  do l <- r; Ok (map (fun x => (r_level x, r_self_safe x, r_safe x)) l).
+
+(* non-vacuity: the hypotheses hold of a nested value with a shared sub-object, and the conclusion computes: 18 rows
+   (the same rows the implementation yields for ([1,'x'], {'a': sh, 3: slice(1,None,2)}, partial(np.add,1), sh)); with
+   show = "untrusted" the root and the partial remain *)
+Example C13_total_nonvacuous :
+  c05_guard wf (wd Snapshot.current) wbase wvis = true /\ facts_sane wf = true
+  /\ vis_of wvis None ShowAll = rows_of wvis None
+  /\ brief (rows_of wvis None)
+     = Ok [(0, true, false); (1, true, true); (2, true, true); (2, true, true); (1, true, true); (2, true, true); (3, true, true);
+           (3, true, true); (2, true, true); (1, false, false); (2, true, true); (2, true, true); (3, true, true); (2, true, true);
+           (2, true, true); (1, true, true); (2, true, true); (2, true, true)]%nat
+  /\ brief (vis_of wvis None ShowUntrusted) = Ok [(0, true, false); (1, false, false)]%nat
+  /\ brief (vis_of wvis (Some [s "functools.partial"]) ShowUntrusted) = Ok [(0%nat, true, true)].
+Proof. repeat split; vm_compute; reflexivity. Qed.
+
+(* D24 (open): show = "trusted" hides a node whose own type is untrusted but still emits its trusted children one level
+   deeper; _traverse_tree then meets a level difference below -1 and raises ValueError.  Witness: [partial(np.add, 1)]
+   (a value of the proved fragment), no trusted list: rows list(0) partial(1, hidden) func(2) ... *)
+Theorem C13_total_on_dumps_trusted_refuted :
+  exists (D : denv) (base : Z) (v : pval) (a : archive) (T : trust),
+    dn_cur D = Snapshot.current /\ c05_guard wf D base v = true /\ dumps_model D base v = Ok a
+    /\ visualize (dump_env a) Snapshot.skipped (a_schema a) T ShowTrusted = Raise EValue
+    /\ (exists rows, visualize (dump_env a) Snapshot.skipped (a_schema a) T ShowAll = Ok rows).
+Proof.
+  destruct (dumps_model (wd Snapshot.current) wbase (plist 1 [wpartial 30])) as [a|e] eqn:Ed; [|vm_compute in Ed; discriminate Ed].
+  exists (wd Snapshot.current), wbase, (plist 1 [wpartial 30]), a, None.
+  split; [reflexivity|]. split; [vm_compute; reflexivity|]. split; [exact Ed|].
+  vm_compute in Ed. injection Ed as <-. split; [vm_compute; reflexivity|]. eexists. vm_compute. reflexivity.
+Qed.
+Print Assumptions C13_total_on_dumps_trusted_refuted.
+
+Theorem C13_total_on_dumps_refuted : ~ C13_total_on_dumps_full_statement.
+Proof.
+  intros H. destruct C13_total_on_dumps_trusted_refuted as [D [base [v [a [T [H1 [_ [H2 [H3 _]]]]]]]]].
+  destruct (H D base v a T ShowTrusted H1 H2) as [rows Hr]. rewrite H3 in Hr. discriminate Hr.
+Qed.
+Print Assumptions C13_total_on_dumps_refuted.
